@@ -1,6 +1,329 @@
 import DaeVerif.C02.Proofs
+import DaeVerif.C01.Props
+/-!
+# C02 — property theorems: the kernel routing program and the userspace matcher decide identically
+
+Reading guide.  `routeK` is the model of the kernel `route()` over raw bytes (Model.lean), `matchU`
+the userspace `RoutingMatcher.Match` over the typed array, `expectedK pk r` = the packed result the
+kernel must return when userspace decides `r` (`pack ∘ dnsAdjust`, `-EPERM` for "no match set hit").
+`Installed m start kp tries` = what one `buildRoutingKernspace` leaves in the maps; `installGen` is
+that function, applied on top of ARBITRARY previous map contents.  Hypotheses are named:
+
+* **H1** (LPM contract, discharged): C12's `kernel_userspace_same_set` — used inside the proof;
+* **H2** `domain`: the bitmap installed for the destination equals userspace's `MatchDomainBitmap`
+  (C10 / C11's subject);
+* **H3** `EntryOK.pname`: LAN packets carry no process name and a WAN packet with an unknown process
+  meets no rule for the all-zero name (`routeK_pname_gap` shows that the hypothesis is needed).
+-/
 namespace DaeVerif.C02.Props
-open DaeVerif.C02
-theorem placeholder_ring (s i : Nat) : ringSlot s i < MaxMatchSetLen := by
-  unfold ringSlot MaxMatchSetLen; omega
+open DaeVerif.RuleScan DaeVerif.C12 DaeVerif.C01 DaeVerif.C02
+
+/-! ## non-vacuity fixtures -/
+
+/-- `dip(10.0.0.0/8) && !dport(80, 443) -> g5(mark 0x800)` · `pname(curl) -> must_rules` ·
+`domain(..) && l4proto(udp) -> block` · `mac(02:42:ac:11:00:02) && dscp(46) && ipversion(4) -> g7(must)` ·
+fallback `g2` -/
+def exKp : List KEntry := [
+  ⟨.ipSet 0, false, OB_And, false, 0x800⟩, ⟨.port 80 80, true, OB_Or, false, 0x800⟩, ⟨.port 443 443, true, 5, false, 0x800⟩,
+  ⟨.processName [0x63, 0x75, 0x72, 0x6c, 0, 0, 0, 0, 0, 0, 0, 0, 0, 0, 0, 0], false, OB_MustRules, false, 0⟩,
+  ⟨.domainSet, false, OB_And, false, 0⟩, ⟨.l4Proto 2, false, 1, false, 0⟩,
+  ⟨.macSet 1, false, OB_And, true, 0⟩, ⟨.dscp 46, false, OB_And, true, 0⟩, ⟨.ipVersion 1, false, 7, true, 0⟩,
+  ⟨.fallback, false, 2, false, 0xffffffff⟩]
+def exTries : List (List Prefix) := [[⟨true, mapped4 0x0a000000, 8⟩], [macPrefix 0x0242ac110002]]
+/-- UDP/53 from `curl` on WAN to 10.1.2.3, no domain -/
+def exPkt : PktK := ⟨2, 1, [0x63, 0x75, 0x72, 0x6c, 0, 0, 0, 0, 0, 0, 0, 0, 0, 0, 0, 0], 0, 1, 40000, 53,
+  mapped4 0xc0a80002, mapped4 0x0a010203, 0x0242ac110002⟩
+/-- maps after two earlier generations (stale rules beyond the active length, stale LPM slots) -/
+def exOld : KMaps := installGen .little 1000 (exKp ++ exKp) (exTries ++ exTries) KMaps.empty
+def exMaps : KMaps := installGen .little 1023 exKp exTries exOld
+
+theorem exEntriesOK : ∀ k ∈ exKp, EntryOK exPkt exTries.length k := by
+  intro k hk
+  simp only [exKp, List.mem_cons, List.not_mem_nil, or_false] at hk
+  rcases hk with rfl | rfl | rfl | rfl | rfl | rfl | rfl | rfl | rfl | rfl <;>
+    exact ⟨by decide, by decide, by decide, by decide⟩
+theorem exTriesWF : ∀ t ∈ exTries, ∀ p ∈ t, p.WF := by decide
+theorem exPktOK : PktOK exPkt := ⟨by decide, by decide, by decide, by decide, by decide, by decide⟩
+
+/-! ## 1. the kernel program returns what the userspace matcher decides -/
+
+/-- **Headline.** For every installed program (typed array `kp`, LPM sets `tries`, ring start
+`start`), whatever else the maps contain, and every packet: the kernel `route()`, run over the raw
+byte images of the match sets, the LPM slots and the per-address domain bitmap, returns exactly
+`pack (dnsAdjust (userspace Match))` — same outbound, mark and must, except that a DNS query not
+covered by a must rule is handed to the control plane — and `-EPERM` when userspace finds no hit. -/
+theorem routeK_eq_userspace (m : KMaps) (pk : PktK) (start : Nat) (kp : List KEntry)
+    (tries : List (List Prefix)) (ubm : List Nat)
+    (installed : Installed m start kp tries)
+    (triesWF : ∀ t ∈ tries, ∀ p ∈ t, p.WF)
+    (pktOK : PktOK pk)
+    (domain : ∀ w, m.domainWord pk.daddr w = ubm.getD w 0)
+    (entriesOK : ∀ k ∈ kp, EntryOK pk tries.length k) :
+    routeK .little m pk = expectedK pk (matchU kp tries ubm pk) :=
+  routeK_main m pk start kp tries ubm installed triesWF pktOK domain entriesOK
+
+-- the hypotheses are satisfiable by a non-trivial state (ring wrap-around at 1023 → 0, stale
+-- generations underneath), and the decision there is a DNS hand-over carrying the hit rule's mark
+example : Installed exMaps 1023 exKp exTries ∧ (∀ w, exMaps.domainWord exPkt.daddr w = ([] : List Nat).getD w 0) ∧
+    matchU exKp exTries [] exPkt = some ⟨5, 0x800, false⟩ ∧
+    routeK .little exMaps exPkt = pack OB_ControlPlane 0x800 false := by
+  refine ⟨installGen_installed _ _ _ _ (by decide) (by decide), fun w => rfl, by decide, ?_⟩
+  rw [routeK_eq_userspace exMaps exPkt 1023 exKp exTries [] (installGen_installed _ _ _ _ (by decide) (by decide))
+    exTriesWF exPktOK (fun w => rfl) exEntriesOK]
+  decide
+
+/-- **After any history of reloads.** One `buildRoutingKernspace` (LPM slots at the ring offsets
+`(start + i) % 1024`, rewritten rules, active length) on top of ARBITRARY previous map contents
+`m0`, followed by arbitrary updates of the domain map, leaves the kernel deciding like userspace:
+stale rules beyond the active length and stale LPM slots are never consulted. -/
+theorem routeK_after_any_reload_history (m0 : KMaps) (dom : List (Nat × List Nat)) (start : Nat)
+    (kp : List KEntry) (tries : List (List Prefix)) (pk : PktK) (ubm : List Nat)
+    (rulesFit : kp.length ≤ MaxMatchSetLen) (triesFit : tries.length ≤ MaxMatchSetLen)
+    (triesWF : ∀ t ∈ tries, ∀ p ∈ t, p.WF) (pktOK : PktOK pk)
+    (domain : ∀ w, ({ installGen .little start kp tries m0 with domain := dom } : KMaps).domainWord pk.daddr w = ubm.getD w 0)
+    (entriesOK : ∀ k ∈ kp, EntryOK pk tries.length k) :
+    routeK .little { installGen .little start kp tries m0 with domain := dom } pk =
+      expectedK pk (matchU kp tries ubm pk) :=
+  routeK_main _ pk start kp tries ubm ((installGen_installed start kp tries m0 rulesFit triesFit).with_domain dom)
+    triesWF pktOK domain entriesOK
+
+example : exKp.length ≤ MaxMatchSetLen ∧ exTries.length ≤ MaxMatchSetLen := by decide
+
+/-- The decision the callers extract (`outbound = r & 0xff`, `mark = r >> 8`, `must = (r >> 40) & 1`)
+is userspace's decision after the DNS adjustment. -/
+theorem kernel_decision (m : KMaps) (pk : PktK) (start : Nat) (kp : List KEntry)
+    (tries : List (List Prefix)) (ubm : List Nat) (installed : Installed m start kp tries)
+    (triesWF : ∀ t ∈ tries, ∀ p ∈ t, p.WF) (pktOK : PktOK pk)
+    (domain : ∀ w, m.domainWord pk.daddr w = ubm.getD w 0)
+    (entriesOK : ∀ k ∈ kp, EntryOK pk tries.length k) (o : Out) (hu : matchU kp tries ubm pk = some o) :
+    unpack (routeK .little m pk).toNat = dnsAdjust pk o := by
+  rw [routeK_eq_userspace m pk start kp tries ubm installed triesWF pktOK domain entriesOK, hu]
+  obtain ⟨h1, h2⟩ := matchU_some_bounds kp tries ubm pk o (fun k hk => ⟨(entriesOK k hk).ob, (entriesOK k hk).mark⟩) hu
+  unfold expectedK dnsAdjust
+  simp only
+  split
+  · exact unpack_pack _ _ _ (by simp [OB_ControlPlane]) h2
+  · exact unpack_pack _ _ _ h1 h2
+
+/-- The one intended difference: a DNS query (destination port 53, TCP or UDP) not covered by a
+must rule is handed to the control plane, keeping the hit rule's mark. -/
+theorem dns_query_goes_to_control_plane (pk : PktK) (o : Out) (hd : isDnsQuery pk = true) (hm : o.must = false) :
+    dnsAdjust pk o = ⟨OB_ControlPlane, o.mark, false⟩ := by
+  unfold dnsAdjust; simp [hd, hm]
+
+/-- … and in every other case (not a DNS query, or a must rule / must outbound hit) the kernel's
+outbound, mark and must are exactly userspace's. -/
+theorem non_dns_or_must_same_decision (pk : PktK) (o : Out) (h : isDnsQuery pk = false ∨ o.must = true) :
+    dnsAdjust pk o = o := by
+  unfold dnsAdjust; rcases h with h | h <;> simp [h]
+
+example : isDnsQuery exPkt = true ∧ isDnsQuery { exPkt with dport := 54 } = false := by decide
+
+/-- "No match set hit" (an error in `Match`) is `-EPERM` in the kernel: both sides refuse. -/
+theorem no_hit_is_error_on_both_sides (pk : PktK) : expectedK pk none = -EPERM := rfl
+
+/-! ## 2. the chain kernel = userspace = first-match specification (C01) -/
+
+/-- The typed array the builder emits for C01's compiled program (one LPM slot per address set,
+domain sets found by position) makes `Match` compute C01's `matchM`. -/
+theorem userspace_typed_eq_C01_matchM (es : List (Entry MCond Out)) (p : Pkt) (wan : Bool) (ubm : List Nat)
+    (outboundsOK : ∀ e ∈ es, OutOK e) (domainPositions : DomOK ubm p 0 es) :
+    matchU (assignFrom 0 es).1 (assignFrom 0 es).2 ubm (toK p wan) = matchM es p := by
+  unfold matchU matchM
+  have := assign_scan p wan ubm es 0 0 [] false false false rfl outboundsOK domainPositions
+  simp only [List.nil_append] at this
+  rw [this]
+
+/-- **Chain.** For every rule list as written, the kernel program run over the installed byte images
+returns the packed decision of the first matching rule (C01's specification), DNS-adjusted. -/
+theorem kernel_eq_first_match_spec (rules : List SRule) (fb : Out) (p : Pkt) (wan : Bool) (ubm : List Nat)
+    (m0 : KMaps) (dom : List (Nat × List Nat)) (start : Nat)
+    (hp : p.WF) (hr : ∀ r ∈ rules, r.WF)
+    (outboundsOK : ∀ e ∈ compileProgram rules fb, OutOK e)
+    (domainPositions : DomOK ubm p 0 (compileProgram rules fb))
+    (rulesFit : (assignFrom 0 (compileProgram rules fb)).1.length ≤ MaxMatchSetLen)
+    (triesFit : (assignFrom 0 (compileProgram rules fb)).2.length ≤ MaxMatchSetLen)
+    (triesWF : ∀ t ∈ (assignFrom 0 (compileProgram rules fb)).2, ∀ q ∈ t, q.WF)
+    (pktOK : PktOK (toK p wan))
+    (domain : ∀ w, ({ installGen .little start (assignFrom 0 (compileProgram rules fb)).1
+        (assignFrom 0 (compileProgram rules fb)).2 m0 with domain := dom } : KMaps).domainWord (toK p wan).daddr w = ubm.getD w 0)
+    (entriesOK : ∀ k ∈ (assignFrom 0 (compileProgram rules fb)).1,
+        EntryOK (toK p wan) (assignFrom 0 (compileProgram rules fb)).2.length k) :
+    routeK .little { installGen .little start (assignFrom 0 (compileProgram rules fb)).1
+        (assignFrom 0 (compileProgram rules fb)).2 m0 with domain := dom } (toK p wan) =
+      expectedK (toK p wan) (some (firstMatchS p rules fb false)) := by
+  rw [routeK_after_any_reload_history m0 dom start _ _ (toK p wan) ubm rulesFit triesFit triesWF pktOK domain entriesOK,
+    userspace_typed_eq_C01_matchM _ p wan ubm outboundsOK domainPositions,
+    C01.Props.match_is_first_match rules fb p hp hr]
+
+-- the chain's hypotheses hold for C01's own example program (its packet without a process name, LAN)
+example : (∀ e ∈ compileProgram C01.Props.exRules ⟨0, 0, false⟩, OutOK e) ∧
+    DomOK [] C01.Props.exPkt 0 (compileProgram C01.Props.exRules ⟨0, 0, false⟩) ∧
+    (assignFrom 0 (compileProgram C01.Props.exRules ⟨0, 0, false⟩)).1.length ≤ MaxMatchSetLen ∧
+    (assignFrom 0 (compileProgram C01.Props.exRules ⟨0, 0, false⟩)).2.length = 2 ∧
+    (∀ k ∈ (assignFrom 0 (compileProgram C01.Props.exRules ⟨0, 0, false⟩)).1,
+      EntryOK (toK { C01.Props.exPkt with pname := List.replicate 16 0 } false) 2 k) := by decide
+
+/-! ## 3. the byte encodings the control plane writes are the ones the kernel reads -/
+
+/-- **Little-endian hosts** (amd64, arm64, riscv64, …): every field the kernel reads from the
+24-byte image — type, not, outbound, must, mark; set index; port range; protocol / version mask
+through the int-sized enum member; the 16 process-name bytes; DSCP — is the value the builder
+wrote, for all 2³² indices and marks, all ports, masks, DSCPs and names. -/
+theorem decode_encode_little (k : KEntry) (hc : k.cond.WF (2 ^ 32)) (hob : k.outbound < 256)
+    (hmk : k.mark < 2 ^ 32) : FieldsAgree .little k := fieldsAgree_little k hc hob hmk
+
+example : (KEntry.mk (.port 1024 65535) true OB_Or true 0xffffffff).cond.WF (2 ^ 32) := by decide
+
+/-- **Big-endian hosts** (dae ships mips, ppc64, s390x builds): set index, port range and the enum
+masks are written with explicit little-endian puts but read natively, so they do NOT round-trip
+(finding candidate #11; model-level, not executable in the sandbox). -/
+theorem decode_encode_bigendian_fails :
+    ¬ FieldsAgree .big ⟨.ipSet 1, false, 0, false, 0⟩ ∧
+    ¬ FieldsAgree .big ⟨.port 80 80, false, 0, false, 0⟩ ∧
+    ¬ FieldsAgree .big ⟨.l4Proto 1, false, 0, false, 0⟩ := by decide
+
+/-- … while the natively written `Mark` field does (so the defect is confined to the `Value` union). -/
+theorem bigendian_mark_agrees (k : KEntry) (hmk : k.mark < 2 ^ 32) : msMark .big (encodeGo .big k) = k.mark :=
+  msMark_enc_big k hmk
+
+/-- On a big-endian target the disagreement reaches the routing decision: `dport(80) -> block`,
+fallback `direct`, a TCP packet to port 80 is blocked by userspace and sent direct by the kernel. -/
+theorem bigendian_routes_differently :
+    routeK .big (installGen .big 0 [⟨.port 80 80, false, 1, false, 0⟩, ⟨.fallback, false, 0, false, 0⟩] [] KMaps.empty)
+        ⟨1, 1, List.replicate 16 0, 0, 0, 40000, 80, 1, 2, 0⟩ = pack 0 0 false ∧
+    matchU [⟨.port 80 80, false, 1, false, 0⟩, ⟨.fallback, false, 0, false, 0⟩] [] []
+        ⟨1, 1, List.replicate 16 0, 0, 0, 40000, 80, 1, 2, 0⟩ = some ⟨1, 0, false⟩ := by decide
+
+/-- Prefix keys: the kernel LPM keys `cidrToBpfLpmKey` writes for a set, looked up with a /128
+probe, describe the same address set as the userspace trie (H1; C12). -/
+theorem lpm_key_same_set (t : List Prefix) (a : Nat) (ht : ∀ p ∈ t, p.WF) (ha : a < 2 ^ 128) :
+    lpmLookup (t.map cidrToKey) a = trieMatch t a := C12.Props.kernel_userspace_same_set t a ht ha
+
+/-- Bitmaps: with the same 32 words on both sides (H2), the kernel's cached-word test
+`(word >> (index % 32)) & 1` is userspace's `bitmap[i/32] >> (i%32) & 1 > 0` with its length guard. -/
+theorem domain_bit_same (ubm : List Nat) (word : Nat → Nat) (h : ∀ w, word w = ubm.getD w 0) (i : Nat) :
+    ((word (i / 32) >>> (i % 32)) &&& 1 != 0) = bitmapBit ubm i := by
+  rw [h]
+  unfold bitmapBit
+  by_cases hl : i / 32 < ubm.length
+  · rw [show decide (i / 32 < ubm.length) = true from decide_eq_true hl, Bool.true_and]
+    generalize ((ubm.getD (i / 32) 0 >>> (i % 32)) &&& 1) = x
+    by_cases hx : x = 0
+    · subst hx; rfl
+    · have : x > 0 := Nat.pos_of_ne_zero hx
+      simp [hx, this]
+  · have h0 : ubm.getD (i / 32) 0 = 0 := by
+      rw [List.getD_eq_getElem?_getD, List.getElem?_eq_none (by omega : ubm.length ≤ i / 32)]; rfl
+    rw [h0, show decide (i / 32 < ubm.length) = false from decide_eq_false hl]; simp
+
+/-! ## 4. the packed result -/
+
+/-- `outbound | mark << 8 | must << 40` and the callers' `r & 0xff`, `(u32)(r >> 8)`, `(r >> 40) & 1`
+are inverse for every outbound byte, every 32-bit mark and both must values. -/
+theorem pack_unpack (ob mark : Nat) (must : Bool) (h1 : ob < 256) (h2 : mark < 2 ^ 32) :
+    unpack (pack ob mark must).toNat = ⟨ob, mark, must⟩ := unpack_pack ob mark must h1 h2
+
+/-- The packed value is a non-negative `__s64` (below 2⁴¹): it can never be taken for an error. -/
+theorem pack_nonneg_fits_s64 (ob mark : Nat) (must : Bool) (h1 : ob < 256) (h2 : mark < 2 ^ 32) :
+    0 ≤ pack ob mark must ∧ pack ob mark must < 2 ^ 41 := by
+  refine ⟨pack_nonneg _ _ _, ?_⟩
+  unfold pack
+  rw [pack_arith ob mark must h1 h2]
+  have : bpfBool must ≤ 1 := by cases must <;> decide
+  have e : ((2 : Int) ^ 41) = ((2 ^ 41 : Nat) : Int) := by norm_cast
+  rw [e]
+  exact Int.ofNat_lt.mpr (by omega)
+
+example : unpack (pack 251 0xffffffff true).toNat = ⟨251, 0xffffffff, true⟩ := by decide
+
+/-! ## 5. ring slots across reloads -/
+
+/-- Within one generation (`count ≤ 1024` sets) the rewritten slot indices are pairwise distinct. -/
+theorem ring_rewrite_injective (start count i j : Nat) (hc : count ≤ MaxMatchSetLen) (hi : i < count)
+    (hj : j < count) (h : ringSlot start i = ringSlot start j) : i = j :=
+  ringSlot_inj start i j (by omega) (by omega) h
+
+/-- Every rewritten index is a valid key of `lpm_array_map` (`MAX_LPM_NUM = 1032` entries). -/
+theorem ring_slot_in_lpm_array (start i : Nat) : ringSlot start i < MaxLpmNum := by
+  unfold ringSlot MaxLpmNum MaxMatchSetLen; omega
+
+/-- `rewriteKernRulesWithRingLpmIndex` succeeds exactly by rewriting every set index when all of
+them are below the number of tries. -/
+theorem rewriteKern_ok (start count : Nat) (kp : List KEntry)
+    (h : ∀ k ∈ kp, ∀ i, k.cond.lpmIdx? = some i → i < count) :
+    rewriteKern start count kp = some (kp.map (KEntry.rewrite start)) := by
+  unfold rewriteKern
+  rw [if_pos]
+  rw [List.all_eq_true]
+  intro k hk
+  cases hi : k.cond.lpmIdx? with
+  | none => rfl
+  | some i => simpa using h k hk i hi
+
+/-- Two consecutive generations (`reserveLpmRingSlots` hands the second the counter the first left)
+whose sizes add up to at most 1024 use disjoint slots: the hot-reload overlap window is safe. -/
+theorem ring_disjoint_from_previous (c0 n1 n2 s1 c1 s2 c2 : Nat)
+    (h1 : reserveRing c0 n1 = some (s1, c1)) (h2 : reserveRing c1 n2 = some (s2, c2))
+    (hsum : n1 + n2 ≤ MaxMatchSetLen) (i j : Nat) (hi : i < n1) (hj : j < n2) :
+    ringSlot s1 i ≠ ringSlot s2 j := by
+  unfold reserveRing at h1 h2
+  have hn1 : n1 ≠ 0 := by omega
+  have hn2 : n2 ≠ 0 := by omega
+  unfold MaxMatchSetLen at *
+  simp only [show ¬ n1 > 1024 from by omega, show ¬ n2 > 1024 from by omega, hn1, hn2, if_false,
+    Option.some.injEq, Prod.mk.injEq] at h1 h2
+  obtain ⟨rfl, rfl⟩ := h1
+  obtain ⟨rfl, rfl⟩ := h2
+  unfold ringSlot MaxMatchSetLen
+  omega
+
+/-- … and the limit is sharp: when the two generations together exceed 1024 sets, the new one
+overwrites a slot the old rules still reference (the documented limit of the ring). -/
+theorem ring_overlap_when_too_many (c0 n1 n2 s1 c1 s2 c2 : Nat)
+    (h1 : reserveRing c0 n1 = some (s1, c1)) (h2 : reserveRing c1 n2 = some (s2, c2))
+    (hn1 : 0 < n1) (hn2 : 0 < n2) (hsum : n1 + n2 > MaxMatchSetLen) :
+    ∃ i j, i < n1 ∧ j < n2 ∧ ringSlot s1 i = ringSlot s2 j := by
+  unfold reserveRing at h1 h2
+  have hle1 : ¬ n1 > MaxMatchSetLen := by intro h; simp [h] at h1
+  have hle2 : ¬ n2 > MaxMatchSetLen := by intro h; simp [h] at h2
+  unfold MaxMatchSetLen at *
+  simp only [hle1, hle2, show n1 ≠ 0 from by omega, show n2 ≠ 0 from by omega, if_false,
+    Option.some.injEq, Prod.mk.injEq] at h1 h2
+  obtain ⟨rfl, rfl⟩ := h1
+  obtain ⟨rfl, rfl⟩ := h2
+  refine ⟨0, 1024 - n1, hn1, by omega, ?_⟩
+  unfold ringSlot MaxMatchSetLen
+  omega
+
+example : reserveRing 1000 30 = some (1000, 6) ∧ reserveRing 6 994 = some (6, 1000) := by decide
+
+/-! ## 6. where the two sides differ by construction (H3) -/
+
+/-- **The process-name gap** (finding candidate #6): the kernel tests `is_wan && equal16`, userspace
+`processName[0] != 0 && equal`. With the rule `pname('') -> block` and a WAN packet whose process is
+unknown (16 zero bytes) the kernel blocks while userspace falls through to `direct`. Replayed on both
+implementations by the harness (stream `c02f6`). -/
+theorem routeK_pname_gap :
+    routeK .little (installGen .little 0 [⟨.processName (List.replicate 16 0), false, 1, false, 0⟩, ⟨.fallback, false, 0, false, 0⟩] [] KMaps.empty)
+        ⟨1, 1, List.replicate 16 0, 0, 1, 40000, 443, 1, 2, 0⟩ = pack 1 0 false ∧
+    matchU [⟨.processName (List.replicate 16 0), false, 1, false, 0⟩, ⟨.fallback, false, 0, false, 0⟩] [] []
+        ⟨1, 1, List.replicate 16 0, 0, 1, 40000, 443, 1, 2, 0⟩ = some ⟨0, 0, false⟩ := by decide
+
+/-- H3 holds under the datapath's convention "LAN: no process name, WAN: process name known" … -/
+theorem pnameOK_of_convention (pk : PktK) (c : KCond)
+    (h : pk.wanw % 256 ≠ 0 ↔ pk.pname.headD 0 ≠ 0) : PnameOK pk c := by
+  constructor
+  · intro hw; by_cases hh : pk.pname.headD 0 = 0
+    · exact hh
+    · exact absurd hw (h.mpr hh)
+  · intro hw hh; exact absurd hh (h.mp hw)
+
+/-- … and, for WAN packets whose process is unknown, as soon as no rule names the empty process. -/
+theorem pnameOK_of_no_empty_name_rule (pk : PktK) (c : KCond) (hlan : pk.wanw % 256 = 0 → pk.pname.headD 0 = 0)
+    (hc : ∀ bs, c = .processName bs → bs.headD 0 ≠ 0) : PnameOK pk c := by
+  refine ⟨hlan, ?_⟩
+  intro _ hh hcp
+  exact hc pk.pname hcp hh
+
 end DaeVerif.C02.Props
